@@ -227,10 +227,13 @@ class VersionedDict(object):
             version = int(version)
         except ValueError:
             raise ValueError("Version must be an integer: %s" % version)
-        if version > 1 and (version - 1) not in self._data[item]:
+        if version < 1:
+            raise KeyError("Versions must start at 1: %i" % version)
+        versions = self._data.get(item, {})
+        if version > 1 and (version - 1) not in versions:
             raise KeyError("Cannot assign version %i of item before adding "
                            "version %i" % (version, version - 1))
-        if version in self._data[item]:
+        if version in versions:
             raise KeyError("Cannot overwrite version %i of %s" %
                            (version, item))
 
